@@ -99,8 +99,14 @@ OpenerLen(m) == IF inp[m.ix[1]] = "#" THEN
                    (IF m.t \in {"set", "tuple"} THEN 2
                     ELSE IF m.ix[1] + 2 <= N /\ inp[m.ix[1] + 1] = "*" /\ inp[m.ix[1] + 2] = "*" THEN 3 ELSE 2)
                 ELSE IF inp[m.ix[1]] = "~" /\ m.ix[1] < N /\ inp[m.ix[1] + 1] = "@" THEN 2 ELSE 1
+\* (the head symbol that the reader synthesizes for 'x, `x, ~x, ~@x, #*x ... carries its parent's region;
+\* it is not a token of the text, so it does not make the place after the prefix a non-gap)
+RECURSIVE NPairs(_, _)
+NPairs(ms, pix) == IF ms = <<>> THEN {}
+                   ELSE {<<Head(ms), pix>>} \cup NPairs(Head(ms).ch, Head(ms).ix) \cup NPairs(Tail(ms), pix)
+RealNodes == {q[1] : q \in {p \in NPairs(res.ch, <<0, 0>>) : p[1].ix # p[2]}}
 IsGap(k) ==
-  \A m \in NodesOf(res.ch) \cup res.ghosts : Positioned(m) =>
+  \A m \in RealNodes \cup res.ghosts : Positioned(m) =>
      /\ (AtomLike(m) => ~(m.ix[1] <= k /\ k < m.ix[2]))
      /\ ((~AtomLike(m) /\ m.t # "fcomp") => ~(m.ix[1] <= k /\ k < m.ix[1] + OpenerLen(m) - 1))
      /\ (m.t = "discard" => ~(m.ix[1] <= k /\ k < m.ix[1] + 1))
